@@ -92,7 +92,7 @@ CLAIMED = {
             "with an include resolved through the terminology stub to a Section of another document: finalize() keeps the own children, adds exactly one "
             "content-equal, heap-disjoint copy per target child whose name was free and changes nothing else; with disjoint names clean() restores the "
             "snapshot, the stored reference still resolves to the target, the dictionary export holds the reference but none of the copies; two cycles.",
-            "terminology.load is an in-memory stub (fetching/caching/threads are C18); names are concrete (posixpath); open finding F-C12-definition-fill; "
+            "terminology.load is an in-memory stub (fetching/caching/threads are C18); names are concrete (posixpath); open findings F-C12-definition-fill and F-C12-other-type-child; "
             "chained or nested links are outside the property."),
     "C13": ("DESIGN.md 5/C13",
             "dest.merge(src) against a reference merge on plain descriptions: symbolic child names/types (structure), Property pairs over dtype x value pools x "
